@@ -351,7 +351,7 @@ impl<'s> Lexer<'s> {
     pub fn f_string_part(
         &mut self,
     ) -> Option<(FStringToken<'s>, Range<usize>)> {
-        let mut chars = self.input.chars().enumerate();
+        let mut chars = self.input.char_indices();
         'outer: while let Some((i, c)) = chars.next() {
             match c {
                 '\\' => {
